@@ -1411,6 +1411,75 @@ Section GrowModel.
         * left. simpl length in HB. lia.
         * right. rewrite EG1 in *. simpl in *. lia.
   Qed.
+
+  (* ---- CapOk is an invariant too (so later_ops_complete_migration applies to every reachable non-empty state) ---- *)
+  Definition CapInv (s : hset) : Prop :=
+    match gens s with [] => True | t :: _ => capacity s <= cap * bcount t end.
+
+  Lemma add_head_cap : forall s t r k afail ncap sch s', Forall tinv (t :: r) ->
+    add_head s t r k afail ncap sch = Some (s', RInserted) ->
+    exists t2 r2, gens s' = t2 :: r2 /\ tlog t2 = tlog t /\ capacity s' = ncap.
+  Proof.
+    intros s t r k afail ncap sch s' HF H. unfold add_head in H. inversion HF; subst.
+    destruct (tadd t k) as [t'|] eqn:ET; [|discriminate]. destruct afail; [discriminate|].
+    destruct (tadd_spec _ _ _ H2 ET) as (T1 & _ & L1).
+    destruct (relocate (t' :: r) sch) as [gs|] eqn:ER; [|discriminate]. inversion H; subst; clear H.
+    assert (HF' : Forall tinv (t' :: r)) by (constructor; auto).
+    destruct (relocate_head _ _ _ _ HF' ER) as (nw' & olds' & E & L). simpl. exists nw', olds'. repeat split; auto. congruence.
+  Qed.
+
+  Lemma upd_nth_head : forall (g : nat) (x t : table) r, tlog x = tlog (nth g (t :: r) t) ->
+    exists t2 r2, upd_nth g x (t :: r) = t2 :: r2 /\ tlog t2 = tlog t.
+  Proof. intros. destruct g; simpl in *; eauto. Qed.
+
+  Theorem capinv_step : forall s o s' r, Inv s -> CapInv s -> step s o = Some (s', r) -> CapInv s'.
+  Proof.
+    intros s o s' r HI HC H. pose proof HI as (HF & _). destruct o; simpl in H.
+    - destruct hfail; [inversion H; subst; auto|].
+      destruct (hfind s k) as [[[g idx] pos]|] eqn:EF; [inversion H; subst; auto|].
+      pose proof (hfind_none_notin _ _ HI EF) as NI.
+      destruct (hadd_spec _ _ _ _ _ _ _ HI NI H) as [(A1 & _)|(A1 & _)]; [subst r|subst s'; auto].
+      unfold hadd in H. unfold CapInv in *.
+      assert (GEN : forall t r0, gens s = t :: r0 -> add_head s t r0 k afail (capacity s) sch = Some (s', RInserted) ->
+                match gens s' with [] => True | t0 :: _ => capacity s' <= cap * bcount t0 end).
+      { intros t r0 EG HA. rewrite EG in HF, HC. destruct (add_head_cap _ _ _ _ _ _ _ _ HF HA) as (t2 & r2 & E & L & C).
+        rewrite E, C. unfold bcount in *. rewrite L. auto. }
+      destruct (count s <? capacity s).
+      + destruct (gens s) as [|t r0] eqn:EG; [discriminate|]. eapply GEN; eauto.
+      + destruct (calcCapacity (2 ^ newLog (gens s)) <=? count s); [discriminate|]. destruct refuse.
+        * destruct (gens s) as [|t r0] eqn:EG; [discriminate|]. eapply GEN; eauto.
+        * assert (NL : 0 <= newLog (gens s)) by (apply newLog_nonneg; auto).
+          assert (HF' : Forall tinv (newTable (newLog (gens s)) :: gens s)) by (constructor; auto; apply tinv_newTable; auto).
+          destruct (add_head_cap _ _ _ _ _ _ _ _ HF' H) as (t2 & r2 & E & L & C).
+          rewrite E, C. unfold bcount. rewrite L. simpl. apply cc_le_phys; auto.
+    - inversion H; subst; auto.
+    - destruct (hfind s k) as [[[g idx] pos]|] eqn:EF; [|inversion H; subst; auto].
+      inversion H; subst; clear H. unfold CapInv in *. simpl.
+      destruct (hfind_sound _ _ _ _ _ EF) as (tg & N & _). unfold upd_gen. rewrite N.
+      destruct (gens s) as [|t r0] eqn:EG; [destruct g; discriminate|].
+      destruct (upd_nth_head g (tremove tg idx pos) t r0) as (t2 & r2 & E & L).
+      { rewrite (nth_error_nth' _ _ _ t _ N). reflexivity. }
+      rewrite E. unfold bcount in *. rewrite L. auto.
+    - unfold hreserve in H. destruct (n <=? capacity s); [inversion H; subst; auto|].
+      destruct (reserve_log 64 (newLog (gens s)) n) as [nl|] eqn:EL; [|inversion H; subst; auto].
+      destruct refuse; [inversion H; subst; auto|].
+      destruct (relocate (newTable nl :: gens s) sch) as [gs|] eqn:ER; [|discriminate]. inversion H; subst; clear H.
+      assert (NL : 0 <= nl) by (pose proof (newLog_nonneg _ HF); pose proof (reserve_log_ge _ _ _ _ EL); lia).
+      assert (HF' : Forall tinv (newTable nl :: gens s)) by (constructor; auto; apply tinv_newTable; auto).
+      destruct (relocate_head _ _ _ _ HF' ER) as (nw' & olds' & E & L). unfold CapInv. simpl. rewrite E.
+      unfold bcount. rewrite L. simpl. apply cc_le_phys; auto.
+    - inversion H; subst; auto.
+    - inversion H; subst; auto.
+  Qed.
+
+  Theorem capinv_run : forall os s s' outs, Inv s -> CapInv s -> run s os = Some (s', outs) -> CapInv s'.
+  Proof.
+    induction os as [|o os IH]; intros s s' outs HI HC H; simpl in H.
+    - inversion H; subst; auto.
+    - destruct (step s o) as [[s1 x]|] eqn:ES; [|discriminate].
+      destruct (run s1 os) as [[s2 xs]|] eqn:ER; [|discriminate]. inversion H; subst.
+      destruct (step_refines _ _ _ _ HI ES) as (I1 & _). pose proof (capinv_step _ _ _ _ HI HC ES) as C1. eapply IH; eauto.
+  Qed.
 End GrowModel.
 
 (* ---- concrete bucket kinds (instantiation used for extraction and for the non-vacuity examples) ---- *)
@@ -1585,7 +1654,17 @@ Section Final.
     eapply (later_ops_complete_migration B b0 decode upd_bound h cap wf0 start next logStart calcCapacity shift nothrowReloc); eauto.
   Qed.
 
-  (* CapOk is itself an invariant of every reachable non-empty state *)
+  (* CapOk (premise of later_ops_complete_migration) holds in every reachable state that has a table *)
+  Theorem reachable_cap_ok : kind_ok -> kind_ok2 -> forall os s outs,
+    run' (hinit B) os = Some (s, outs) -> gens B s <> [] -> CapOk B cap s.
+  Proof.
+    intros (H1 & H2 & H3 & H4 & H5 & H6) (K1 & K2) os s outs H HN.
+    assert (C : CapInv B cap s).
+    { eapply (capinv_run B b0 decode upd_bound h cap wf0 start next logStart calcCapacity shift nothrowReloc); eauto.
+      - apply Inv_init.
+      - unfold CapInv, hinit; simpl; auto. }
+    unfold CapInv in C. unfold CapOk. destruct (gens B s) as [|t r] eqn:E; [congruence|]. eauto.
+  Qed.
 End Final.
 
 (* ================================================================================================== *)
